@@ -266,6 +266,18 @@ def gen_tables():
     if not mw:
         raise GenError("IntPrimeDom::Miller left the translated shape (random(g, a, n) / nonzerorandom(g, a, n))")
     K["MILLER_NONZERO"] = mw.group(1) == "nonzerorandom"
+    # --- FermatDom: fermat(f, n) = (1 << (1u << n)) + c, pepin: 3^((fn-1)/2) == fn - 1
+    b = func_body(pc, r"FermatDom::fermat\s*\([^)]*\)\s*const\s*\{", "FermatDom::fermat")
+    m = re.search(r"assign\s*\(\s*f\s*,\s*one\s*\)\s*<<=\s*\(\s*1u\s*<<\s*n\s*\)\s*;\s*return\s+addin\s*\(\s*f\s*,\s*(\w+)\s*\)", b)
+    if not m:
+        raise GenError("FermatDom::fermat left the translated shape (assign(f,one) <<= (1u << n); return addin(f, c);)")
+    K["FERMAT_ADD"] = ev(m.group(1), mac)
+    b = func_body(pc, r"bool\s+FermatDom::pepin\s*\(\s*const\s+Rep\s*&\s*fn\s*\)\s*const\s*\{", "FermatDom::pepin")
+    m = re.search(r"sub\s*\(\s*z\s*,\s*fn\s*,\s*(\w+)\s*\)\s*;\s*divin\s*\(\s*z\s*,\s*(\w+)\s*\)\s*;\s*powmod\s*\(\s*y\s*,\s*(\w+)\s*,\s*z\s*,\s*fn\s*\)\s*;"
+                  r"\s*subin\s*\(\s*y\s*,\s*fn\s*\)\s*;\s*negin\s*\(\s*y\s*\)\s*;\s*return\s+isOne\s*\(\s*y\s*\)", b)
+    if not m:
+        raise GenError("FermatDom::pepin left the translated shape (sub(z,fn,a); divin(z,b); powmod(y,c,z,fn); subin(y,fn); negin(y); return isOne(y);)")
+    K["PEPIN_SUB"], K["PEPIN_DIV"], K["PEPIN_BASE"] = ev(m.group(1), mac), ev(m.group(2), mac), ev(m.group(3), mac)
     # --- givprimes16.C
     pt = read_src("primes16_C")
     m = re.search(r"Primes16::_size\s*=\s*(\w+)\s*;", pt)
@@ -294,7 +306,7 @@ def coq_of_tables(K):
             "PREVIN_LOW", "PREVIN_LOWVAL", "PREVIN_ODD", "PREVIN_EVEN", "PREVIN_STEP",
             "PREV_LOW", "PREV_LOWVAL", "PREV_ODD", "PREV_EVEN", "PREV_STEP",
             "PPREV_LOW", "PPREV_LOWVAL", "PPREV_ODD", "PPREV_EVEN", "PPREV_STEP",
-            "SMALLEST_OMITTED_PRIME", "PROD_FIRST", "PROD_SECOND", "FIRST_DEFAULT", "SECOND_DEFAULT", "PRIMES16_SIZE", "POLLARD_CST"]
+            "SMALLEST_OMITTED_PRIME", "PROD_FIRST", "PROD_SECOND", "FIRST_DEFAULT", "SECOND_DEFAULT", "PRIMES16_SIZE", "POLLARD_CST", "FERMAT_ADD", "PEPIN_SUB", "PEPIN_DIV", "PEPIN_BASE"]
     for s in scal:
         L.append("Definition %s : Z := %s." % (s, "(%d)" % K[s] if K[s] < 0 else "%d" % K[s]))
     for s in ("ISPRIME_GUARD", "IPP_ZERO_RET"):
@@ -794,6 +806,15 @@ def scripted_cases(rng, K, add, thorough):
     for n in [5, 7, 11, 13, 17, 97, 257, 65537, 1009, 2147483647, 18446744073709551557] + [rand_prime(rng, rng.range(5, 90)) for _ in range(6)]:
         for a in [0, 1, n - 1, 2, 3, n // 2, rng.range(2, n - 2), n, 2 * n + 3]:
             add("s.miller", [n, 0, a, 2, 3], "smiller", {n: 1}, "witness 0" if a % n == 0 else "prime n")
+    # Lehmann's test with a chosen base (the definition: A^((n-1)/2) == n - 1), FermatDom
+    for n in [5, 7, 13, 97, 65537, 2147483647, 561, 1105, 9, 15, 4, 3, 2, 1, 0] + [rand_prime(rng, rng.range(5, 70)) for _ in range(4)]:
+        for a in [0, 1, 2, 3, 5, max(n - 1, 0), rng.range(2, max(n, 4))]:
+            add("s.lehmann", [n, 0, a, 2], "slehmann", None, "chosen base")
+            if n >= 2:                    # the helper divides by n: Lehmann() rejects n < 2 before it calls it
+                add("s.test_lehmann", [n, 0, a, 2], "slehmann", None, "chosen base")
+    for k in range(0, 12 if not thorough else 15):
+        add("fermat", [k], "fermat", None, "F_k")
+        add("pepin", [k], "fermat", None, "F_k")
     for n, a in ((2047, 2), (2047, 3), (9, 8), (9, 2), (15, 4), (15, 14), (561, 50), (561, 2), (1373653, 2), (1373653, 3), (1373653, 5), (25, 7), (91, 10), (4, 3), (4, 2), (4, 1), (1, 0), (0, 0), (2, 1), (3, 2), (-7, 3)):
         add("s.miller", [n, 0, a, 2, 3], "smiller", None, "composite / edge n")
 
@@ -1105,9 +1126,11 @@ def model_line(c, out):
     if c["kind"] == "nprange":
         return None if v.startswith("pnext") else "%s %d %d" % (v, a[0], a[1])       # Protected::nextprime is GMP's mpz_nextprime: no model
     if v.startswith("s."):
-        if v in ("s.primefactor.ip", "s.lenstra.ip"):
+        if v in ("s.primefactor.ip", "s.lenstra.ip", "s.lehmann", "s.test_lehmann"):
             return None                                                              # specification only
         return "%s %s" % (v, " ".join(str(x) for x in a))
+    if v in ("fermat", "pepin"):
+        return None if (v == "pepin" and a[0] > 8) else "%s %d" % (v, a[0])      # the model's powmod on 2^k-bit numbers: k <= 8
     if v == "erat":
         return "erat %d" % a[0] if (a[0] < (1 << 16) or a[0] % 7 == 3) else None      # the model sieve needs ~0.5 s near 2^20: a sample of the large ones
     if v == "ipp.alias":
@@ -1223,7 +1246,8 @@ SITE = {"isprime": "IntPrimeDom::isprime", "isprime.r": "IntPrimeDom::isprime", 
         "s.set1": "IntFactorDom::set(Lf,n)", "s.write": "IntFactorDom::write", "s.divisors": "IntFactorDom::divisors(L,n)",
         "s.pollard.ip": "IntFactorDom::Pollard(in place)", "s.lenstra.ip": "IntFactorDom::Lenstra(in place)", "s.factor.ip": "IntFactorDom::factor(in place)",
         "s.iffactorprime.ip": "IntFactorDom::iffactorprime(in place)", "s.primefactor.ip": "IntFactorDom::primefactor(in place)",
-        "s.miller": "IntPrimeDom::Miller"}
+        "s.miller": "IntPrimeDom::Miller", "s.lehmann": "IntPrimeDom::Lehmann", "s.test_lehmann": "IntPrimeDom::test_Lehmann",
+        "fermat": "FermatDom::fermat", "pepin": "FermatDom::pepin"}
 # scripted call form -> the call form whose specification it shares
 S_MAP = {"s.pollard": "pollard", "s.factor": "factor", "s.iffactorprime": "iffactorprime", "s.primefactor": "primefactor",
          "s.set2": "set2.vec", "s.set2.list": "set2.list", "s.set1": "set1.vec", "s.write": "write", "s.divisors": "divisors.n",
@@ -1305,6 +1329,36 @@ def spec_check(chk, c, out, K, sv):
         for fi in sub.failing:
             chk.fail_input(site, kl, {"variant": v, "args": [str(x) for x in a]}, fi["expected"], out[:300], fi["detail"])
         return wrong
+    if kind == "slehmann":
+        n, aw = a[0], a[2]
+        body = out.split("|")[0].split()
+        if hang or not body:
+            return fail(c["klass"], "an answer", out)
+        if v == "s.lehmann":
+            want = 0 if n < 2 else (1 if n <= 3 else int(pow(aw % n, (n - 1) // 2, n) == n - 1))
+            if to_int(body[0]) != want:
+                return fail(c["klass"], want, "Lehmann(g, n) with the base %d: 1 iff base^((n-1)/2) = n - 1 (mod n)" % aw)
+            return False
+        if n >= 2:
+            want = pow(aw % n, (n - 1) // 2, n)
+            if to_int(body[0]) != want or body[1:] != ["1"]:
+                return fail(c["klass"], "%d 1" % want, "test_Lehmann(g, r, n) = base^((n-1)/2) mod n, returned in r")
+        return False
+    if kind == "fermat":
+        k = a[0]
+        fk = (1 << (1 << k)) + 1
+        if hang:
+            return fail(c["klass"], "an answer", out)
+        if v == "fermat":
+            if toks != [str(fk), "1"]:
+                return fail(c["klass"], "%d 1" % fk if k < 8 else "2^(2^%d)+1" % k, "fermat(f, k) = 2^(2^k) + 1")
+            return False
+        if k == 0:
+            return False                     # Pepin's test is stated for k >= 1 (F_0 = 3 divides the base): correspondence only
+        want = 1 if k <= 4 else 0            # F_1..F_4 are prime, F_5..F_32 are composite
+        if toks[:1] != [str(want)]:
+            return fail(c["klass"], want, "pepin(k): F_%d is %s" % (k, "prime" if want else "composite"))
+        return False
     if kind == "smiller":
         n, aw = a[0], a[2]
         got = to_int(out.split("|")[0].strip()) if not hang else None
